@@ -48,6 +48,11 @@ pub enum Conduit {
     GenNext,
     GenFold,
     GenCatchFor,
+    /// generator whose `yield`s sit INSIDE a try block (the catch point lives in a frame that is
+    /// suspended and resumed); consumed by a summing `for`
+    GenYieldInTry,
+    /// object with `@iterator` returning a generator, consumed by `for`
+    OpIterator,
     /// `(a..=a+1).each(|x| f(x))<adaptor><consumer>`: an iterator pipeline through one of the
     /// pass-through adaptors and one of the consumers (each with its own error path)
     Chain(u8, u8),
@@ -122,6 +127,8 @@ pub const CONDUITS: &[Conduit] = &[
     Conduit::GenNext,
     Conduit::GenFold,
     Conduit::GenCatchFor,
+    Conduit::GenYieldInTry,
+    Conduit::OpIterator,
 ];
 
 impl Conduit {
@@ -250,6 +257,13 @@ pub enum Stmt {
     Try(Box<Try>),
     Dump(u32),
     Expr(Expr),
+    /// `i<v> += e`
+    AddAssign(u8, Expr),
+    /// a multi-line method chain with the expression on a continuation line:
+    /// `i<v> = (0..1)` / `  .each |x| x + <e>` / `  .fold 0, |p, q| p + q`
+    ChainAssign(u8, Expr),
+    /// `i<v> = match <e>` with a literal arm, a guarded arm and an else arm
+    MatchAssign(u8, Expr, Expr),
     /// `i<v> = C_APPLY <arg>, |x|` + a multi-statement function literal that calls f<func>:
     /// every frame on the path is an ordinary Koto call frame
     AssignLambdaCall(u8, usize, Expr, u32),
@@ -409,7 +423,11 @@ impl<'a> Gen<'a> {
             // the argument must be a literal (it is spliced into a string of source text)
             Conduit::KotoRun => Expr::Int(self.r.irange(0, 9)),
             // these conduits take no argument
-            Conduit::Display | Conduit::DisplayInList | Conduit::OpNegate | Conduit::OpSize => Expr::Int(0),
+            Conduit::Display
+            | Conduit::DisplayInList
+            | Conduit::OpNegate
+            | Conduit::OpSize
+            | Conduit::OpIterator => Expr::Int(0),
             _ => arg,
         };
         self.p.n_calls += 1;
@@ -587,6 +605,15 @@ impl<'a> Gen<'a> {
                         continue;
                     }
                 }
+                27 => match self.r.below(3) {
+                    0 => Stmt::AddAssign(self.r.below(3) as u8, self.int_expr(2, c)),
+                    1 => Stmt::ChainAssign(self.r.below(3) as u8, self.int_expr(1, c)),
+                    _ => Stmt::MatchAssign(
+                        self.r.below(3) as u8,
+                        self.int_expr(1, c),
+                        self.int_expr(1, c),
+                    ),
+                },
                 26 => {
                     let funcs = self.callable_funcs();
                     if funcs.is_empty() {
@@ -885,6 +912,8 @@ impl Printer {
                     Conduit::GenNext => format!("GEN{}({a}).next().get()", c.func),
                     Conduit::GenFold => format!("GEN{}({a}).fold(0, |acc, x| acc + x)", c.func),
                     Conduit::GenCatchFor => format!("GENCSUM{}({a})", c.func),
+                    Conduit::GenYieldInTry => format!("GENYSUM{}({a})", c.func),
+                    Conduit::OpIterator => format!("ITSUM{}()", c.func),
                     Conduit::Chain(ad, co) => {
                         self.chains.insert((ad, co));
                         format!("C_CH{ad}_{co}({f}, {a})")
@@ -1044,6 +1073,24 @@ impl Printer {
                 self.line(indent, &format!("dump({}, i0, i1, i2, s0, l0, m0, GL)", 1000 + t.id));
             }
             Stmt::Dump(n) => self.line(indent, &format!("dump({n}, i0, i1, i2, s0, l0, m0, GL)")),
+            Stmt::AddAssign(v, e) => {
+                let e = self.expr(e);
+                self.line(indent, &format!("i{v} += {e}"));
+            }
+            Stmt::ChainAssign(v, e) => {
+                self.line(indent, &format!("i{v} = (0..1)"));
+                let e = self.expr(e);
+                self.line(indent + 1, &format!(".each |x| x + {e}"));
+                self.line(indent + 1, ".fold 0, |p, q| p + q");
+            }
+            Stmt::MatchAssign(v, e, e2) => {
+                let e = self.expr(e);
+                self.line(indent, &format!("i{v} = match {e}"));
+                self.line(indent + 1, "0 then 10");
+                self.line(indent + 1, "x if x == 123456789 then 11");
+                let e2 = self.expr(e2);
+                self.line(indent + 1, &format!("else {e2}"));
+            }
             Stmt::AssignLambdaCall(v, func, arg, site) => {
                 let a = self.expr(arg);
                 let ix = *site as usize;
@@ -1164,6 +1211,26 @@ pub fn print(p: &Program, opts: &PrintOpts) -> Printed {
         pr.line(0, &format!("export GENCSUM{i} = |n|"));
         pr.line(1, "s = 0");
         pr.line(1, &format!("for v in GENC{i}(n)"));
+        pr.line(2, "s += v");
+        pr.line(1, "return s");
+        pr.line(0, &format!("export GENY{i} = |n|"));
+        pr.line(1, "for x in n..=n + 1");
+        pr.line(2, "try");
+        pr.line(3, &format!("yield f{i}(x)"));
+        pr.line(3, &format!("yield f{i}(x + 10)"));
+        pr.line(2, "catch e");
+        pr.line(3, "caught(0, e)");
+        pr.line(3, "yield -1");
+        pr.line(0, &format!("export GENYSUM{i} = |n|"));
+        pr.line(1, "s = 0");
+        pr.line(1, &format!("for v in GENY{i}(n)"));
+        pr.line(2, "s += v");
+        pr.line(1, "return s");
+        pr.line(0, &format!("export OPIT{i} ="));
+        pr.line(1, &format!("@iterator: || GEN{i}(0)"));
+        pr.line(0, &format!("export ITSUM{i} = ||"));
+        pr.line(1, "s = 0");
+        pr.line(1, &format!("for v in OPIT{i}"));
         pr.line(2, "s += v");
         pr.line(1, "return s");
     }
